@@ -59,6 +59,23 @@ RAW = [
 ]
 
 
+# duplicate-key resolution: the first occurrence wins in every construct that can name a key twice (explicit pairs, `**` operands of
+# literals and of calls, digests), for scalar and for non-scalar keys - the expected values are the statement's, not a recorded run's
+FIRST_WINS = [
+    ("%{**%{[1]: 'a}, **%{[1]: 'b}}.items", 'val:[[[1], "a"]]'),
+    ("%{[1]: 'x, [3, 3]: 'e, **%{[1]: 'a, [2]: 'c}, **%{[2]: 'b, [3, 3]: 'd, [4]: 'f}, **%{[4]: 'g}}.items", 'val:[[[1], "x"], [[3, 3], "e"], [[2], "c"], [[4], "f"]]'),
+    ("%{1: 'a, 1: 'b, \"s\": 'c, **%{1: 'd, \"s\": 'e, 2: 'f}, **%{2: 'g}}.items", 'val:[[1, "a"], ["s", "c"], [2, "f"]]'),
+    ("{a: 1, a: 2, c: 7, **{a: 3, b: 4}, **{b: 5, c: 6}}.items", 'val:[["a", 1], ["b", 4], ["c", 7]]'),
+    ("{|a: 0, b: 0| [a, b, \\_]}(a: 1, a: 2, **{a: 3, b: 4}, **{b: 5})", 'val:[1, 4, {a: 1, b: 4}]'),
+    ("[[[0, 1], \"b\"], [[0, 1], \"B\"], [[0, 0], \"z\"]]@(%{[0, 0]: \"a\"}){|k, v| [k, v]}.items", 'val:[[[0, 0], "a"], [[0, 1], "b"]]'),
+    ("%{**{a: 1, _p: 2}, **{a: 3, _p: 4, b: 5}}.items", 'val:[["a", 1], ["_p", 2], ["b", 5]]'),
+    ("{**{a: 1, _p: 2}, **{a: 3, _p: 4, b: 5}}.items(private?: true)", 'val:[["a", 1], ["b", 5], ["_p", 2]]'),
+    ("[['a, 1], ['b, 2]]@({a: 0}){|k, v| [k, v]}.items", 'val:[["a", 0], ["b", 2]]'),
+    ("%{[1, [2]]: 'a, [1, [2]]: 'b, [[1], 2]: 'c, **%{[[1], 2]: 'd, [1, [2]]: 'e}}.len", "val:2"),
+    ("o := {k: 1}; %{^o: 'a, **%{{k: 1}: 'b}, **%{^o: 'c}}.values", 'val:["a"]'),
+]
+
+
 def distinct_runs(resp):
     runs = resp.get("runs") or [resp["events"] + [resp["end"]]]
     seen, out = set(), []
@@ -90,6 +107,11 @@ def run():
         if [e for e in between if e in ("out:1", "out:2")] != wanted * (2 if "@^" in rq["src"] and False else 1):
             ck.reject("C08:varcall-arguments-not-evaluated", f"{rq['src'].splitlines()[2]!r}: the arguments written at the variable call are evaluated {between} (each must be evaluated exactly once, in order)",
                       {"src": rq["src"], "observed": ev, "expected_between_70_and_71": wanted})
+    fout = run_cases([{"id": f"w{k}", "src": src} for k, (src, _) in enumerate(FIRST_WINS)], label="C08 first occurrence wins")
+    for k, (src, want) in enumerate(FIRST_WINS):
+        if fout[f"w{k}"]["end"] != want:
+            ck.reject("C08:first-occurrence-wins", f"{src!r} gives {fout[f'w{k}']['end']}; with the first occurrence of every key winning it is {want}",
+                      {"src": src, "observed": fout[f"w{k}"]["end"], "expected": want})
     # repetition: same parsed program N times in one process, re-parsed, and in n_proc different processes
     srcs = [(f"F{i}", tag, panlang.program_src(body)) for i, (tag, body) in enumerate(fam)] + [(f"R{i}", "raw", s) for i, s in enumerate(RAW)]
     total_runs = 0
